@@ -82,7 +82,8 @@ theorem handleSuccess_match (a : Agent) (now : Nat) (m : Msg) (l r : Cand) (src 
     (hpd : (a.takePending now m.tid).2 = some pd) (hnet : pd.net = l.net) (hdest : pd.dest = src)
     (hsrc : pd.src = l.addr) (hp : a.findPair l r = some p) :
     a.handleSuccess now m l r src =
-      ((hsSel ((a.takePending now m.tid).1.modPair p.id (hsMark pd)) p pd).1.modPair p.id
+      ((hsFin ((a.takePending now m.tid).1.modPair p.id (hsMark pd)) p pd
+          (hsSel ((a.takePending now m.tid).1.modPair p.id (hsMark pd)) p pd).1).modPair p.id
           fun p => { p with respRecv := p.respRecv + 1 },
        (hsSel ((a.takePending now m.tid).1.modPair p.id (hsMark pd)) p pd).2) := by
   rw [handleSuccess_eq, hpd]
@@ -112,8 +113,10 @@ theorem hsSel_cld_nom (b : Agent) (p : Pair) (pd : Pending) (hc : b.controlling 
       | none => rw [hs] at hsp; cases hsp
       | some x => rfl
     split
-    · rw [select_selected]; rfl
     · exact hsome
+    · split
+      · rw [select_selected]; rfl
+      · exact hsome
 
 /-- a valid pair with id `id` stays listed and valid under updates that keep identity and state -/
 theorem succ_modPair {a : Agent} {id : Nat} (j : Nat) (f : Pair → Pair) (hid : ∀ p, (f p).id = p.id)
@@ -132,6 +135,28 @@ theorem succ_select {a : Agent} {id : Nat} (j : Nat) (h : ∃ q ∈ a.checklist,
     ∃ q ∈ (a.select j).1.checklist, q.id = id ∧ q.state = .succeeded := by
   rw [select_fst]
   exact succ_modPair j (fun p => { p with nominated := true }) (fun _ => rfl) (fun _ => rfl) h
+
+theorem hsFin_ends (a : Agent) (p : Pair) (pd : Pending) (x : Agent) : Ends x (hsFin a p pd x) := by
+  unfold hsFin
+  split
+  · split
+    · exact Ends.of_eq rfl rfl rfl
+    · exact Ends.refl _
+  · split
+    · exact modPair_ends x p.id hsClear (fun _ => rfl) (fun _ => rfl) (fun _ => rfl)
+    · exact Ends.refl _
+
+theorem succ_hsFin {x : Agent} {id : Nat} (a : Agent) (p : Pair) (pd : Pending)
+    (h : ∃ q ∈ x.checklist, q.id = id ∧ q.state = .succeeded) :
+    ∃ q ∈ (hsFin a p pd x).checklist, q.id = id ∧ q.state = .succeeded := by
+  unfold hsFin
+  split
+  · split
+    · exact h
+    · exact h
+  · split
+    · exact succ_modPair p.id hsClear (fun _ => rfl) (fun _ => rfl) h
+    · exact h
 
 theorem succ_hsSel {b : Agent} {id : Nat} (p : Pair) (pd : Pending)
     (h : ∃ q ∈ b.checklist, q.id = id ∧ q.state = .succeeded) :
@@ -168,11 +193,13 @@ theorem handleSuccess_sel (a : Agent) (now : Nat) (m : Msg) (l r : Cand) (src : 
           modPair_ends A p.id (hsMark pd) (fun _ => rfl) (fun _ => rfl) (fun _ => rfl)
         rcases hsSel_cases (A.modPair p.id (hsMark pd)) p pd with e | ⟨e, hr⟩
         · rw [e]
-          exact ⟨hends.trans (hB.trans (modPair_ends _ p.id _ (fun _ => rfl) (fun _ => rfl) (fun _ => rfl))), Or.inl hsel⟩
-        · rw [e]
-          refine ⟨hends.trans (hB.trans ((select_ends _ p.id).trans
+          exact ⟨hends.trans (hB.trans ((hsFin_ends _ p pd _).trans
             (modPair_ends _ p.id _ (fun _ => rfl) (fun _ => rfl) (fun _ => rfl)))),
-            Or.inr ⟨pd, p, rfl, hfp ▸ hfind, select_selected _ p.id, ?_⟩⟩
+            Or.inl ((hsFin_selected _ p pd _).trans hsel)⟩
+        · rw [e]
+          refine ⟨hends.trans (hB.trans ((select_ends _ p.id).trans ((hsFin_ends _ p pd _).trans
+            (modPair_ends _ p.id _ (fun _ => rfl) (fun _ => rfl) (fun _ => rfl))))),
+            Or.inr ⟨pd, p, rfl, hfp ▸ hfind, (hsFin_selected _ p pd _).trans (select_selected _ p.id), ?_⟩⟩
           rcases hr with ⟨h1, h2⟩ | ⟨h1, h2⟩
           · exact Or.inl ⟨hctl ▸ h1, h2⟩
           · exact Or.inr ⟨hctl ▸ h1, h2⟩
